@@ -697,6 +697,10 @@ class Interp:
             return True
         if isinstance(v, SegStr):
             return len(v) > 0
+        if isinstance(v, Rat) and self.order is not None:
+            r = self.order(v, '!=', C(0))
+            if r is not None:
+                return r
         raise Unsupported('undecidable truth value', node)
 
 
@@ -1177,9 +1181,13 @@ class Frame:
             raise _RaisedExc(Raised('TypeError', n))
         if isinstance(base, ListV) and isinstance(idx, ListV):
             cur = base
-            for ix in idx.items:
+            for pos, ix in enumerate(idx.items):
                 if not isinstance(cur, ListV):
                     raise _RaisedExc(Raised('IndexError', n))
+                if isinstance(ix, SliceV) and ix.full and pos == len(idx.items) - 1:
+                    r = ListV(list(cur.items))         # a[i, j, :] - a (copy of a) row
+                    r.is_array = True
+                    return r
                 cur = cur.items[self.index(ix, len(cur), n)]
             return cur
         if isinstance(base, ListV):
@@ -1594,6 +1602,10 @@ def builtin_call(I, fr, name, args, kwargs, n):
             v = v.items[0]          # float() of a size-1 array is its element
         if isinstance(v, ListV):
             raise _RaisedExc(Raised('TypeError', n))
+        if isinstance(v, bool):
+            return C(1 if v else 0)
+        if name == 'int' and isinstance(v, Rat) and v.is_const():
+            return C(int(v.const_value()))         # truncation towards zero
         if isinstance(v, (Rat, Elem, SumV)):
             return v
         raise Unsupported('%s() of %r' % (name, v), n)
@@ -1856,7 +1868,7 @@ def bound_native(I, fr, bn, args, kwargs, n):
         if name == 'copy':
             return DictV(dict(b.d))
         if name == 'get':
-            k = args[0]
+            k = b.nkey(args[0])
             return b.d.get(k, args[1] if len(args) > 1 else None)
         if name == 'items':
             return ListV([ListV([b.okey(k), v]) for k, v in b.d.items()])
@@ -1865,7 +1877,7 @@ def bound_native(I, fr, bn, args, kwargs, n):
         if name == 'values':
             return ListV(list(b.d.values()))
         if name == 'pop':
-            k = args[0]
+            k = b.nkey(args[0])
             if k in b.d:
                 return b.d.pop(k)
             if len(args) > 1:
@@ -1876,6 +1888,11 @@ def bound_native(I, fr, bn, args, kwargs, n):
                 b.d.update(args[0].d)
             b.d.update(kwargs)
             return None
+        if name == 'setdefault':
+            k = b.nkey(args[0])
+            if k not in b.d:
+                b.d[k] = args[1] if len(args) > 1 else None
+            return b.d[k]
     if isinstance(b, (str, SegStr)) and (isinstance(b, SegStr) or b in I.sym_strings or name in ('join', 'format')):
         r = abstract_str_method(I, fr, b, name, args, kwargs, n)
         if r is not NotImplemented:
@@ -2380,7 +2397,16 @@ def _np_isclose(I, fr, args, kwargs, n):
         if a.eq(b):
             return True
         if (a - b).is_const():
-            return False
+            # |a - b| <= atol + rtol*|b| with numpy's defaults unless the call says otherwise
+            rtol = args[2] if len(args) > 2 else kwargs.get('rtol', C(Fr(1, 10 ** 5)))
+            atol = args[3] if len(args) > 3 else kwargs.get('atol', C(Fr(1, 10 ** 8)))
+            if not (isinstance(rtol, Rat) and rtol.is_const() or rtol.iszero()) or \
+                    not (isinstance(atol, Rat) and atol.is_const() or atol.iszero()):
+                raise Unsupported('np.isclose with symbolic tolerances', n)
+            if not (b.is_const() or b.iszero()):
+                return False        # differing by a constant at symbolic magnitude: generic point
+            val = lambda r: Fr(0) if r.iszero() else r.const_value()
+            return abs(val(a - b)) <= val(atol) + val(rtol) * abs(val(b))
     raise Unsupported('np.isclose of symbolic values', n)
 
 
